@@ -52,6 +52,7 @@ ASSUMPTIONS = ['booleans (even/odd/start/end/first-x/last-x) are compared by '
                'the window of a batched run is taken from the start+size '
                'law of C11']
 CASE_CPU_SECONDS = 120.0
+CASE_CPU_SECONDS_QUICK = 10.0
 
 # batch index -> (attributes, start, size, orphan); index 0 is unbatched
 BATCHES = ((None, 0, 0, 0),
